@@ -316,6 +316,24 @@ def qcmp (tbl : Table α) (a b : Quantity α) : QOrd :=
     | .ok b' => cmpValues a.value b'.value
     | .error _ => .incompatible
 
+/-- the four ordering opcodes of the VM -/
+inductive CmpOp where
+  | lt | gt | le | ge
+deriving Repr, DecidableEq
+
+/-- `Op::LessThan | GreaterThan | LessOrEqual | GreatorOrEqual` of the VM -/
+def vmCompare (tbl : Table α) (op : CmpOp) (a b : Quantity α) : Except QErr Bool :=
+  match qcmp tbl a b with
+  | .incompatible => .error .incompatible
+  | .nan => .ok false
+  | .lt => .ok (op == .lt || op == .le)
+  | .eq => .ok (op == .le || op == .ge)
+  | .gt => .ok (op == .gt || op == .ge)
+
+/-- `Op::Equal` / `Op::NotEqual` on quantities -/
+def vmEq (tbl : Table α) (a b : Quantity α) : Bool := qeq tbl a b
+def vmNe (tbl : Table α) (a b : Quantity α) : Bool := !qeq tbl a b
+
 /-- `to_base_unit_representation` of a quantity -/
 def toBase (tbl : Table α) (q : Quantity α) : Quantity α :=
   ⟨mul q.value (factorOf tbl q.unit), baseRep tbl q.unit, true⟩
